@@ -403,6 +403,7 @@ type Cfg struct {
 	SafeInts bool // ints within +/-(2^53-1) only
 	NonFinite bool
 	Scalars  bool // scalars only
+	Big      bool // occasionally a string / bytes value at a CBOR length boundary (255, 256, 4095, 4096, 65535, 65536, 70000 bytes)
 }
 
 var DefaultKeys = []string{"a", "b", "c", "aa", "x", "foo", "é", "", "with space", "A", "key-1", "d.e"}
@@ -460,7 +461,25 @@ func GenStr(t *rapid.T) V {
 	return Str(rapid.SampledFrom(strPool).Draw(t, "spool"))
 }
 
+var BigSizes = []int{255, 256, 4095, 4096, 4097, 65535, 65536, 70000}
+
 func GenScalar(t *rapid.T, cfg Cfg) V {
+	if cfg.Big && rapid.IntRange(0, 24).Draw(t, "big") == 0 {
+		n := rapid.SampledFrom(BigSizes).Draw(t, "bigsize")
+		seed := rapid.Byte().Draw(t, "bigseed")
+		if rapid.Bool().Draw(t, "bigstr") {
+			b := make([]byte, n)
+			for i := range b {
+				b[i] = 'a' + byte((i+int(seed))%26)
+			}
+			return Str(string(b))
+		}
+		b := make([]byte, n)
+		for i := range b {
+			b[i] = byte(i*31) ^ seed
+		}
+		return Bytes(b)
+	}
 	hi := 7
 	switch rapid.IntRange(0, hi).Draw(t, "kind") {
 	case 0:
